@@ -273,6 +273,9 @@ func runV2(c *v2.Client, o *Op) (out Outcome) {
 	case "update":
 		in := &dynamodb.UpdateItemInput{TableName: strptr(o.Table), Key: toV2Item(o.KeyItem), UpdateExpression: strptr(o.Expr), ConditionExpression: condPtr(o.Cond),
 			ExpressionAttributeNames: strMap(o.names), ExpressionAttributeValues: v2Values(o)}
+		if o.NoExpr {
+			in.UpdateExpression = nil
+		}
 		if o.RetOnFail {
 			in.ReturnValuesOnConditionCheckFailure = v2types.ReturnValuesOnConditionCheckFailureAllOld
 		}
